@@ -114,6 +114,46 @@ let judge _id (c : cursor) (r : cursor) : bool * string =
       if nontrivial_rules rs then nt := true
     done;
     (!nt, kind)
+  | "veq" | "lsq" | "mpq" | "rilsq" ->
+    (* QFunction (FactoredVector) inputs: the function is the SUM of all bases, several of which may share a
+       tag.  Each basis is expanded into one rule per local joint action; all checks then run on the rules. *)
+    let site = (match kind with "veq" -> "VariableElimination::operator()" | "lsq" -> "LocalSearch::operator()"
+                              | "mpq" -> "MaxPlus::operator()" | _ -> "ReusingIterativeLocalSearch::operator()") in
+    if kind = "mpq" then ignore (next_int c);
+    if kind = "rilsq" then (ignore (next_int c); ignore (next_int c));
+    let nsets = next_int c in
+    let nt = ref false in
+    let g0 = ref None in
+    let read_qf () =
+      let bases = next_list c (fun c -> let tag = next_nats c in let vals = next_qs c in (tag, vals)) in
+      let rules = List.concat_map (fun (tag, vals) ->
+          if List.length vals <> int_of_nat (psize tag a_sp) then failwith "basis size";
+          List.mapi (fun j v -> ((tag, pdec tag a_sp (nat_of_int j)), v)) vals) bases in
+      (bases, rules) in
+    for s = 1 to nsets do
+      let (bases, rs) = read_qf () in
+      let i_act = next_nats r in let i_val = next_q r in
+      let clause = if kind = "veq" then "ve_optimal" else "approx_reports_true_value" in
+      if not (inrb a_sp i_act) then oracle_fail clause site (Printf.sprintf "set %d: action out of range %s" s (str_act i_act));
+      if not (q_eq i_val (payoff rs i_act)) then
+        oracle_fail clause site (Printf.sprintf "set %d: reported %s, but the sum of all bases at %s is %s" s (string_of_q i_val) (str_act i_act) (string_of_q (payoff rs i_act)));
+      if kind = "veq" then begin
+        if not (is_upper rs a_sp i_val) then
+          oracle_fail clause site (Printf.sprintf "set %d: value %s is not the maximum (opt = %s)" s (string_of_q i_val) (string_of_q (opt a_sp rs)));
+        (match ve a_sp rs (heur_order a_sp (make_graph a_sp rs)) with
+         | Some (_, m_val) -> if not (q_eq m_val i_val) then disagree "ve_value" site (Printf.sprintf "set %d: model %s impl %s" s (string_of_q m_val) (string_of_q i_val))
+         | None -> disagree "ve_model" site "model refuses")
+      end else begin
+        if not (q_le i_val (opt a_sp rs)) then oracle_fail "approx_le_opt" site (Printf.sprintf "set %d: reported %s exceeds opt" s (string_of_q i_val));
+        (* graph loading: MakeGraph (first QFunction) + UpdateGraph (this one): every node holds the SUM of its bases *)
+        let g_made = (match !g0 with Some g -> g | None -> let g = ls_make a_sp rs in g0 := Some g; g) in
+        let m_val = evaluate_graph a_sp (ls_update a_sp g_made rs) i_act in
+        if not (q_eq m_val i_val) then disagree "evaluate_graph" "LocalSearch::evaluateGraph" (Printf.sprintf "set %d: model %s impl %s" s (string_of_q m_val) (string_of_q i_val))
+      end;
+      let tags = List.map fst bases in
+      if List.length tags > List.length (List.sort_uniq compare (List.map ints tags)) then nt := true
+    done;
+    (!nt, kind)
   | "vemix" | "lsmix" | "mpmix" | "rilsmix" ->
     (* one maximiser object over a sequence of different action spaces *)
     let site = (match kind with "vemix" -> "VariableElimination::operator()" | "lsmix" -> "LocalSearch::operator()"
